@@ -254,6 +254,7 @@ static std::vector<uint64_t> solo_in_own_process(const Plan &p, size_t t) {
 static Outcome run_forked(const Plan &p0, std::string *line_out = nullptr, Totals *tot = nullptr) {
     Plan p = p0;
     if (p.fresh) { p.expected.resize(p.programs.size()); for (size_t t = 0; t < p.programs.size(); t++) p.expected[t] = solo_in_own_process(p, t); }
+    if (tot) { if (p.fresh) { tot->fresh_reference_runs++; for (auto &e : p.expected) if (!e.empty()) tot->reference_processes++; } if ((p.sched_seed >> 5) & 1) tot->shared_lifo_runs++; }
     Outcome out; int fd[2];
     if (pipe(fd) != 0) { out.cls = "infra"; return out; }
     std::fflush(stdout);
@@ -397,11 +398,13 @@ int main(int argc, char **argv) {
         std::printf("S {\"runs\": %llu, \"violations\": %llu, \"ops\": %llu, \"events\": %llu, \"steps\": %llu, \"accesses_checked\": %llu, \"nontrivial_runs\": %llu, \"distinct_nontrivial\": %zu, "
                     "\"faults\": {\"preemptions_injected\": %llu, \"context_switches\": %llu, \"allocation_faults_planned\": %llu, \"allocation_faults_fired\": %llu}, \"sync_operations_modelled\": %llu, \"unsupported_primitive_runs\": %llu, "
                     "\"strategies\": {\"serial\": %llu, \"rare_preemption\": %llu, \"medium_preemption\": %llu, \"frequent_preemption\": %llu, \"window_targeted\": %llu}, "
-                    "\"libc_process_state\": {\"runs_under_non_C_locale\": %llu, \"modelled_reads\": %llu, \"modelled_writes\": %llu}, \"overlap_pairs\": [",
+                    "\"libc_process_state\": {\"runs_under_non_C_locale\": %llu, \"modelled_reads\": %llu, \"modelled_writes\": %llu}, "
+                    "\"environment\": {\"runs_also_compared_with_programs_alone_in_own_process\": %llu, \"reference_processes\": %llu, \"runs_under_shared_lifo_block_placement\": %llu}, \"overlap_pairs\": [",
                     (unsigned long long)tot.runs, (unsigned long long)viols, (unsigned long long)tot.ops, (unsigned long long)tot.events, (unsigned long long)tot.events, (unsigned long long)tot.accesses,
                     (unsigned long long)nt, distinct.size(), (unsigned long long)tot.preemptions, (unsigned long long)tot.switches, (unsigned long long)tot.alloc_faults_planned, (unsigned long long)tot.alloc_faults_fired, (unsigned long long)tot.sync_ops, (unsigned long long)unsupported,
                     (unsigned long long)tot.strategy[0], (unsigned long long)tot.strategy[1], (unsigned long long)tot.strategy[2], (unsigned long long)tot.strategy[3], (unsigned long long)tot.strategy[4],
-                    (unsigned long long)tot.locale_runs, (unsigned long long)tot.libc_reads, (unsigned long long)tot.libc_writes);
+                    (unsigned long long)tot.locale_runs, (unsigned long long)tot.libc_reads, (unsigned long long)tot.libc_writes,
+                    (unsigned long long)tot.fresh_reference_runs, (unsigned long long)tot.reference_processes, (unsigned long long)tot.shared_lifo_runs);
         bool first = true; for (int v : overlap) { std::printf("%s%d", first ? "" : ",", v); first = false; }
         std::printf("], \"overlap_dim\": %d, \"op_kinds\": %d}\n", (int)OV_DIM, nk);
         const char *sigfile = arg(argc, argv, "--sigs", nullptr);
